@@ -387,6 +387,13 @@ func runWatchCase(t *testing.T, o *Out, id, kind string, evs []watchEv, extIdx i
 			settle(quiet)
 		}
 	}
+	defer func() {
+		// release the watcher of this case (inotify instances are a scarce system-wide resource):
+		// replacing the namespaces configuration cancels the namespace manager's context
+		if reg != nil {
+			_ = reg.Config(ctx).Set(config.KeyNamespaces, []*namespace.Namespace{})
+		}
+	}()
 	final := nsState(getNM())
 	if byName := nsStateByName(getNM()); byName != final {
 		final = "by-list:" + final + "/by-name:" + byName
